@@ -51,6 +51,11 @@ CHECKS = {
          "Generated search over (28 option types x bases 2..36 x choice sets x value text) delivered through --opt=value, default tags and the environment, plus a complete enumeration of integer type x base x limit+-{0,1} every run and (thorough) a 60 s coverage-guided fuzz campaign over (type, base, bytes). Accept/reject and the stored value are compared with an own digit scanner over math/big and with strconv.ParseFloat/time.ParseDuration at the declared width; rejections must be ErrMarshal/ErrInvalidChoice naming the option and listing every choice.",
          "trusts strconv.ParseFloat, time.ParseDuration, math/big; forms on which Go's conventions and the documentation differ ('+' or '-0' on unsigned) are don't-care: only 'if accepted then denoted value' is checked",
          "DESIGN.md §4 C11"),
+ "C12": ("exploration",
+         "property-based testing (rapid): write -> read round trip on a fresh parser over the same generated declaration, for generated values and all IniOptions",
+         "Generated search over declarations (nested groups, commands, ini-name/no-ini/hidden marks, default tags, multi-line descriptions) and values assigned after defaults were applied (arbitrary byte strings, numeric limits in bases 2-36, NaN/Inf, slices, maps) under all eight IniOptions; the written text must be readable by a fresh parser and, after defaults are applied, every written option must equal the original.",
+         "fresh structs start from zero values (program-supplied initial field contents are outside 'declarations'); -0 and +0 are identified; map keys are restricted as the statement's quantifier says; crossing ini-names are not generated here (C13 covers resolution); the custom marshaler type used is a true inverse pair",
+         "DESIGN.md §4 C12"),
  "C13": ("exploration",
          "property-based testing (rapid): reference name/section resolution plus differential comparison of INI reading against the equivalent command-line flags",
          "Generated search over declarations with crossing names, INI texts using all four key naming forms and all section spellings, every option type, repeated keys, in normal and as-defaults mode. Each entry's target option and stored value are compared with the reference resolution (ini-name case-insensitively > field name > namespaced long name > short name; section by description or dotted command path; header-less entries reach the parser's own groups only), untouched options must keep their contents, and per option the same entries passed as --name=value to a fresh parser must give the same field value.",
